@@ -31,7 +31,14 @@ where
             1u32.into(),
         );
 
-        let lvl_1_ks: usize = self.glwe_keyswitch_tmp_bytes_default(glwe_infos, glwe_infos, key_infos);
+        // The key-switch runs on the rank-1 embedding of the LWE (in the key's radix), not on a `res`-shaped input.
+        let lwe_as_glwe_infos: GLWELayout = GLWELayout {
+            n: key_infos.n(),
+            base2k: key_infos.base2k(),
+            k: lwe_infos.max_k(),
+            rank: 1u32.into(),
+        };
+        let lvl_1_ks: usize = self.glwe_keyswitch_tmp_bytes_default(glwe_infos, &lwe_as_glwe_infos, key_infos);
         let lvl_1_a_conv: usize = if lwe_infos.base2k() == key_infos.base2k() {
             0
         } else {
